@@ -307,6 +307,31 @@ where
     Ok(())
 }
 
+/// Crate-visible alias of `validate_proof_shape` for `verif_hooks`.
+#[cfg(feature = "verif_hooks")]
+pub(crate) fn validate_proof_shape_hook<F, C, S, const D: usize>(
+    stark: &S,
+    proof: &StarkProof<F, C, D>,
+    public_inputs: &[F],
+    config: &StarkConfig,
+    num_ctl_helpers: usize,
+    num_ctl_zs: usize,
+) -> anyhow::Result<()>
+where
+    F: RichField + Extendable<D>,
+    C: GenericConfig<D, F = F>,
+    S: Stark<F, D>,
+{
+    validate_proof_shape(
+        stark,
+        proof,
+        public_inputs,
+        config,
+        num_ctl_helpers,
+        num_ctl_zs,
+    )
+}
+
 /// Utility function to check that all lookups data wrapped in `Option`s are `Some` iff
 /// the STARK uses a permutation argument.
 fn check_lookup_options<F, C, S, const D: usize>(
